@@ -66,7 +66,7 @@ def _prune(keep):
     except FileNotFoundError:
         return
     ents.sort(key=lambda e: os.path.getmtime(os.path.join(CACHE, e)), reverse=True)
-    for e in ents[2:]:
+    for e in ents[5:]:
         shutil.rmtree(os.path.join(CACHE, e), ignore_errors=True)
         try:
             os.unlink(os.path.join(CACHE, e + ".lock"))
